@@ -174,143 +174,5 @@ def handle? (op : String) (j : Json) : Option Json :=
       | some h =>
         Json.mkObj [("ok", Json.bool (roundtripB h (nat j "root")))])
   | _ => none
-    | [n, x] => match jstr n with
-      | some "bool" => (jbool x).map .bool
-      | some "int" => (jstr x).bind (fun s => s.toInt?.map .int)
-      | some "float" => (jstr x).map .float
-      | some "str" => (jstr x).map .str
-      | some "bytes" => (jstr x).map .bytes
-      | _ => none
-    | [n, a, b, c] => match jstr n, jbool a, jbool b, jnat c with
-      | some "obj", some a, some b, some c => some (.obj a b c)
-      | _, _, _, _ => none
-    | _ => none
-  | _ => none
-
-def cellOf (j : Json) : Option Cell :=
-  match j with
-  | .arr #[t, .arr ks] => do
-    let tag ← tagOf t
-    let kids ← ks.toList.mapM jnat
-    pure ⟨tag, kids⟩
-  | _ => none
-
-def heapOf (j : Json) : Option Heap :=
-  match j with
-  | .arr cs => (cs.toList.mapM cellOf).map List.toArray
-  | _ => none
-
-def opOf (j : Json) : Option Op :=
-  match j with
-  | .arr a =>
-    match a.toList with
-    | [n] => match jstr n with
-      | some "frame" => some .frame | some "stop" => some .stop | some "none" => some .none
-      | some "newtrue" => some .newtrue | some "newfalse" => some .newfalse | some "memoize" => some .memoize
-      | some "emptyDict" => some .emptyDict | some "emptyList" => some .emptyList | some "emptyTuple" => some .emptyTuple
-      | some "emptySet" => some .emptySet | some "mark" => some .mark | some "setitem" => some .setitem
-      | some "setitems" => some .setitems | some "append" => some .append | some "appends" => some .appends
-      | some "additems" => some .additems | some "frozenset" => some .frozenset | some "tuple" => some .tuple
-      | some "tuple1" => some .tuple1 | some "tuple2" => some .tuple2 | some "tuple3" => some .tuple3
-      | some "stackGlobal" => some .stackGlobal | some "newobj" => some .newobj | some "newobjEx" => some .newobjEx
-      | some "reduce" => some .reduce | some "build" => some .build | some "pop" => some .pop
-      | some "popMark" => some .popMark | some "dup" => some .dup
-      | _ => none
-    | [n, x] => match jstr n with
-      | some "proto" => (jnat x).map .proto
-      | some "int" => (jstr x).bind (fun s => s.toInt?.map .int)
-      | some "float" => (jstr x).map .float
-      | some "str" => (jstr x).map .str
-      | some "bytes" => (jstr x).map .bytes
-      | some "get" => (jnat x).map .get
-      | some "put" => (jnat x).map .put
-      | _ => none
-    | [n, x, y] => match jstr n, jstr x, jstr y with
-      | some "global", some m, some q => some (.global m q)
-      | _, _, _ => none
-    | _ => none
-  | _ => none
-
-def opJson : Op → Json
-  | .proto n => Json.arr #["proto", Json.num n]
-  | .frame => Json.arr #["frame"] | .stop => Json.arr #["stop"] | .none => Json.arr #["none"]
-  | .newtrue => Json.arr #["newtrue"] | .newfalse => Json.arr #["newfalse"]
-  | .int z => Json.arr #["int", Json.str (toString z)]
-  | .float x => Json.arr #["float", Json.str x]
-  | .str s => Json.arr #["str", Json.str s]
-  | .bytes s => Json.arr #["bytes", Json.str s]
-  | .memoize => Json.arr #["memoize"]
-  | .get i => Json.arr #["get", Json.num i]
-  | .put i => Json.arr #["put", Json.num i]
-  | .emptyDict => Json.arr #["emptyDict"] | .emptyList => Json.arr #["emptyList"]
-  | .emptyTuple => Json.arr #["emptyTuple"] | .emptySet => Json.arr #["emptySet"]
-  | .mark => Json.arr #["mark"] | .setitem => Json.arr #["setitem"] | .setitems => Json.arr #["setitems"]
-  | .append => Json.arr #["append"] | .appends => Json.arr #["appends"] | .additems => Json.arr #["additems"]
-  | .frozenset => Json.arr #["frozenset"] | .tuple => Json.arr #["tuple"] | .tuple1 => Json.arr #["tuple1"]
-  | .tuple2 => Json.arr #["tuple2"] | .tuple3 => Json.arr #["tuple3"]
-  | .global m n => Json.arr #["global", Json.str m, Json.str n]
-  | .stackGlobal => Json.arr #["stackGlobal"] | .newobj => Json.arr #["newobj"] | .newobjEx => Json.arr #["newobjEx"]
-  | .reduce => Json.arr #["reduce"] | .build => Json.arr #["build"] | .pop => Json.arr #["pop"]
-  | .popMark => Json.arr #["popMark"] | .dup => Json.arr #["dup"]
-
-def crefJson : CRef → Json
-  | .atom t => tagJson t
-  | .idx n => Json.num n
-
-def canonJson (c : Canon) : Json :=
-  Json.mkObj [("root", crefJson c.root),
-              ("cells", Json.arr (c.cells.map (fun (t, ks) => Json.arr #[tagJson t, Json.arr (ks.map crefJson).toArray])).toArray)]
-
-def pairsOf (j : Json) : List (String × String) :=
-  match j with
-  | .arr a => a.toList.filterMap (fun e => match e with
-      | .arr #[m, n] => match jstr m, jstr n with
-        | some a, some b => some (a, b)
-        | _, _ => none
-      | _ => none)
-  | _ => []
-
-def handle? (op : String) (j : Json) : Option Json :=
-  match op with
-  | "pickle-run" =>
-    some (match (arr j "ops").toList.mapM opOf with
-      | none => reject "bad-ops"
-      | some ops =>
-        let cfg : Cfg := { setstate := pairsOf ((j.getObjVal? "setstate").toOption.getD Json.null) }
-        match runWith cfg ops with
-        | .error e => reject e.cls
-        | .ok (h, r) =>
-          match canon h r with
-          | none => reject "canon"
-          | some c => Json.mkObj [("ok", canonJson c), ("heap", Json.num h.size), ("reach", Json.num c.cells.length)])
-  | "pickle-canon" =>
-    some (match heapOf ((j.getObjVal? "heap").toOption.getD Json.null) with
-      | none => reject "bad-heap"
-      | some h =>
-        match canon h (nat j "root") with
-        | none => reject "canon"
-        | some c => Json.mkObj [("ok", canonJson c), ("reach", Json.num c.cells.length)])
-  | "pickle-dump" =>
-    some (match heapOf ((j.getObjVal? "heap").toOption.getD Json.null) with
-      | none => reject "bad-heap"
-      | some h =>
-        match dump h (nat j "root") with
-        | .error e => reject e.cls
-        | .ok ops => Json.mkObj [("ok", Json.arr (ops.map opJson).toArray)])
-  | "pickle-roundtrip" =>
-    some (match heapOf ((j.getObjVal? "heap").toOption.getD Json.null) with
-      | none => reject "bad-heap"
-      | some h =>
-        let r := nat j "root"
-        match dump h r with
-        | .error e => reject ("dump:" ++ e.cls)
-        | .ok ops =>
-          match run ops with
-          | .error e => reject ("run:" ++ e.cls)
-          | .ok (h', r') =>
-            match canon h r, canon h' r' with
-            | some c, some c' => Json.mkObj [("ok", Json.bool (c == c')), ("ops", Json.num ops.length)]
-            | _, _ => reject "canon")
-  | _ => none
 
 end Pepper.Driver.PickleOps
